@@ -224,11 +224,11 @@ theorem odd_spec (emit : Int) :
   unfold odd; split <;> (try simp) <;> omega
 
 /-- `.align m` (m > 0): zero fill of the least length that makes the address a multiple of `m` -/
-theorem align_spec (emit : Int) (m : Int) (hm : 0 < m) :
+theorem align_spec (emit : Int) (m : Int) (hm : 0 < m) (hm16 : m < 2 ^ 16) :
     ∃ bs, (align emit m).run = ⟨.ok bs, {}⟩ ∧ (emit + bs.length) % m = 0 ∧ (bs.length : Int) < m ∧ ∀ b ∈ bs, b = 0 := by
-  have hc : getAsIntM none true m {} = ⟨.ok m.toNat, {}⟩ := by
-    have : ¬ m < 0 := by omega
-    simp [getAsIntM, getAsInt, this]
+  have hok := getAsIntM_ok 16 true m {} ((getAsInt_unsigned_ok_iff 16 m).mpr ⟨by omega, hm16⟩)
+  have hck : cooked 16 m = m.toNat := by unfold cooked; rw [Int.emod_eq_of_lt (by omega) hm16]
+  have hc : getAsIntM (some 16) true m {} = ⟨.ok m.toNat, {}⟩ := by rw [hok, hck]
   have hne : ¬ m.toNat = 0 := by omega
   have hcast : ((m.toNat : Nat) : Int) = m := Int.toNat_of_nonneg (by omega)
   refine ⟨zeros ((-emit) % m).toNat, ?_, ?_, ?_, ?_⟩
@@ -242,6 +242,12 @@ theorem align_spec (emit : Int) (m : Int) (hm : 0 < m) :
     simp only [zeros, List.length_replicate, Int.toNat_of_nonneg h0]
     exact Int.emod_lt_of_pos _ hm
   · intro b hb; simp [zeros] at hb; exact hb.2
+
+/-- a modulus beyond the 16-bit address space is an error, nothing is emitted -/
+theorem align_too_large_reports (emit : Int) (m : Int) (hm : 2 ^ 16 ≤ m) :
+    (align emit m).run = ⟨.error .abort, { errs := ["value-out-of-bounds"], warns := [] }⟩ := by
+  have := getAsIntM_fail 16 true m {} (fun hx => by have := (getAsInt_unsigned_ok_iff 16 m).mp hx; omega)
+  simp [align, M.run, this]
 
 /-- `.align 0` and negative moduli are errors -/
 theorem align_bad_modulus_reports (emit : Int) (m : Int) (hm : m ≤ 0) :
